@@ -252,7 +252,7 @@ func (r *rewriter) rewrite() {
 		case *ast.GoStmt:
 			c.Replace(r.goStmt(n))
 		case *ast.SendStmt:
-			if _, inSelect := c.Parent().(*ast.CommClause); inSelect {
+			if cc, inSelect := c.Parent().(*ast.CommClause); inSelect && cc.Comm == ast.Stmt(n) {
 				return true
 			}
 			c.Replace(&ast.ExprStmt{X: r.call("Send", n.Chan, n.Value)})
@@ -267,11 +267,11 @@ func (r *rewriter) rewrite() {
 			}
 			switch p := c.Parent().(type) {
 			case *ast.ExprStmt:
-				if _, inSelect := parentOf(r.file, p).(*ast.CommClause); inSelect {
+				if cc, inSelect := parentOf(r.file, p).(*ast.CommClause); inSelect && cc.Comm == ast.Stmt(p) {
 					return true
 				}
 			case *ast.AssignStmt:
-				if _, inSelect := parentOf(r.file, p).(*ast.CommClause); inSelect && len(p.Rhs) == 1 && p.Rhs[0] == ast.Expr(n) {
+				if cc, inSelect := parentOf(r.file, p).(*ast.CommClause); inSelect && cc.Comm == ast.Stmt(p) && len(p.Rhs) == 1 && p.Rhs[0] == ast.Expr(n) {
 					return true
 				}
 				if len(p.Lhs) == 2 && len(p.Rhs) == 1 && p.Rhs[0] == ast.Expr(n) {
